@@ -359,7 +359,7 @@ def ts0_three(ck, n):
                     Pb_n = Pb.copy()
                     for a in range(d):
                         Pb_n[:, a::d, a::d] *= s2d / s2b[a]
-                    p = cmp_cov(Pd, Pb_n, sd, rtol=1e-7, label="ts0 dense-blockdiag cov rescaled (mle)")
+                    p = cmp_cov(Pd, Pb_n, sd, rtol=max(1e-7, rtol_of(c["q"])), label="ts0 dense-blockdiag cov rescaled (mle)")
                     if p:
                         ck.report(f"C14.dense-blockdiag.{cal}.cov-rescaled", f"{describe(cc)}: {p}", rep)
 
@@ -392,6 +392,11 @@ def ts1_decoupled(ck, n):
         rep = {"case": jc}
         if not all(finite(r) for r in rs):
             who = [i for i, r in enumerate(rs) if not finite(r)]
+            if cal.startswith("dyn") and 0 in who and len(who) >= 2:
+                # dynamic calibration with an exactly-zero local residual returns NaN (finding F21, property C01) -- in the block-diagonal
+                # run AND in the scalar run of the same dimension: the factorisations agree, which is all C14 asks
+                ck.hist.setdefault("dynamic_zero_residual_nan_in_both(F21)", {"n": 0})["n"] += 1
+                continue
             ck.report(f"C14.blockdiag-scalar.{mode}.nonfinite", f"{describe(c)}: non-finite output in runs {who} (0 = block-diagonal, 1.. = scalar)", rep)
             continue
         mb, Pb, sb = arrs(rs[0])
